@@ -38,7 +38,16 @@ def capture(opti, probe_seed, with_fun=False):
     pv = _arr(opti.debug.value(p, ini)) if npar else np.zeros(0)
     rec = {"nx": nx, "ng": ng, "np": npar, "x0": x0, "p": pv, "f": [], "g": [], "lbg": None, "ubg": None}
     for xi in [x0] + probe_points(nx, probe_seed):
-        f, g, lbg, ubg = F(xi, pv)
+        try:
+            f, g, lbg, ubg = F(xi, pv)
+        except RuntimeError:
+            # a built-in integrator (cvodes / idas / collocation) may fail to integrate from an arbitrary point:
+            # the NLP exists, it just cannot be evaluated there; such a point is not judged (NaN-aware comparison)
+            rec["f"].append(float("nan"))
+            rec["g"].append(np.full(ng, np.nan))
+            if rec["lbg"] is None:
+                rec["lbg"], rec["ubg"] = np.full(ng, np.nan), np.full(ng, np.nan)
+            continue
         rec["f"].append(float(f))
         rec["g"].append(_arr(g))
         rec["lbg"], rec["ubg"] = _arr(lbg), _arr(ubg)
@@ -78,6 +87,8 @@ def well_conditioned(r1, r2):
     for i in range(min(len(r1["f"]), len(r2["f"]))):
         vals = [np.abs(np.asarray(r1["g"][i], dtype=float)), np.abs(np.asarray(r2["g"][i], dtype=float)),
                 np.abs(np.asarray([r1["f"][i], r2["f"][i]], dtype=float))]
+        if any(np.all(np.isnan(v)) and v.size for v in vals):
+            continue  # could not be evaluated at this point
         m = max([float(np.nanmax(v)) if v.size else 0.0 for v in vals])
         if np.isfinite(m) and m <= COND_LIMIT:
             ok.append(i)
